@@ -270,6 +270,16 @@ def run(ctx):
                     o.violated(sw, c, f"the new edge inherits its motif id from `{txt(OLD)}`, which is neither corner edge of this pairing", key=key)
             else:
                 o.violated(sw, c, f"proposal `{txt(NEW)}` does not connect the focal vertex {role(F)} to the far end of the partner corner's edge", key=key)
+        # the two proposals of one pairing inherit from the two DIFFERENT corner edges: each of the two motifs loses one edge (its
+        # corner) and must gain exactly one - whichever of the two conventions above is used
+        olds = [txt(c.args[2]) for c in calls if len(c.args) == 4]
+        if len(olds) == 2 and e1v is not None:
+            if set(olds) == {e0v, e1v}:
+                o.holds(sw, calls[0], f"the two proposals inherit from the two corner edges {role(calls[0].args[2])} and {role(calls[1].args[2])}, one each")
+            elif olds[0] == olds[1] and olds[0] in (e0v, e1v):
+                o.violated(sw, calls[1], f"both proposals of a pairing inherit topology and motif id from {role(calls[1].args[2])}: that motif gains two edges and the other corner's motif "
+                                         "none, although each loses exactly one - the number of edges per motif id is not preserved", shape_free=True,
+                           key=f"both proposals inherit from {role(calls[1].args[2])}")
         # provenance inside append_proposal_edges
         asc = Scope(ap.node)
         pG, pF, pOLD, pNEW = ap.params[1:5]
